@@ -3,3 +3,5 @@ import SwhVerif.Base.Headers
 import SwhVerif.Gen.Tables
 import SwhVerif.Model.Directory
 import SwhVerif.Model.Snapshot
+import SwhVerif.Model.Toposort
+import SwhVerif.Model.Time
